@@ -493,9 +493,20 @@ def check_private_report(ctx):
                         separate_into_sections(independent=independent, report=r)
                     else:
                         separate_into_sections(pattern=f['pattern'], independent=independent, report=r)
-                    for k in range(rng.randint(1, f['n_markers'] + 1)):
+                    from pedal.core.report import MAIN_REPORT as default_report
+                    default_before = len(default_report.feedback) + len(default_report.ignored_feedback)
+                    visits = rng.randint(1, f['n_markers'] + 1)
+                    past = rng.random() < 0.4
+                    for k in range(visits if not past else f['n_markers'] + 2):
                         next_section(report=r)
                         verify(report=r)
+                    if past:
+                        ctx.count('past_the_end_requests_on_a_private_report')
+                        if not any(fb.label == 'not_enough_sections' for fb in r.feedback + r.ignored_feedback):
+                            ctx.violation('C17|past-the-end-without-not_enough_sections|private-report', case, [fb.label for fb in r.feedback][-5:])
+                    strayed = (default_report.feedback + default_report.ignored_feedback)[default_before:]
+                    if strayed:
+                        ctx.violation('C17|section-feedback-recorded-in-the-default-report|private-report', case, sorted({fb.label for fb in strayed}))
                     if ending == 'resolve':
                         simple.resolve(r)
                     elif ending == 'resolve-by-keyword':
